@@ -106,6 +106,9 @@ class IntervalRange(MetaHandlerGenerator):
     def __class_getitem__(cls, args):
         return IntervalRange(*args)
 
+    def __repr__(self):
+        return f"IntervalRange[{self.minimum_length}...{self.maximum_length}, {self.maximum_top_limit}]"
+
     def generate(
         self,
         random: RandomSource,
